@@ -326,6 +326,10 @@ def gen_variable_shell(rng, i, ents, enums, *, types=TYPES, units=None, input_on
         var["set_input"] = pick(rng, ["divide", "dispatch"]) if typ == "float" else "dispatch"
     elif unit in ("month", "day") and chance(rng, 0.1):
         var["set_input"] = "dispatch"
+    if unit in ("month", "year") and typ in ("float", "int") and chance(rng, 0.25):
+        # how Simulation.calculate_output answers a request for another period: a monthly
+        # amount is summed over a year, a yearly one divided over its months
+        var["calculate_output"] = "add" if unit == "month" else "divide"
     if unit != "eternity" and chance(rng, 0.12):
         # (the last day a variable exists may be the first day of a period)
         var["end"] = pick(rng, ["2018-06-30", "2018-12-31", "2019-03-31", "2018-01-01", "2018-02-01", "2019-01-01"])
@@ -425,6 +429,7 @@ def gen_world(
         # entries again later in the same request (as cache hits), directly and
         # through one another - the interleavings cache pollution needs
         readers = [i for i, v in enumerate(world["variables"]) if v["formulas"] and i > min(hot)]
+        summers = []  # (reader that sums a quasi-circular variable over a window, that variable)
         for _ in range(rng.randint(2, 5)):
             if not readers:
                 break
@@ -437,6 +442,14 @@ def gen_world(
             g = ExprGen(rng, world, i, discipline)
             s = pick(rng, sorted(var["formulas"]))
             leaf = g.read(target_index=pick(rng, same_unit), earlier_only=chance(rng, 0.5))
+            if leaf[0] == "rd" and var["unit"] in ("month", "year") and chance(rng, 0.3):
+                # ... or sums them over the last few periods (a quarter to date): pieces that
+                # are all stored by then are summed from the store
+                tgt = world["variables"][pick(rng, same_unit)]
+                via = g._via(tgt)
+                if via != "skip" and tgt["type"] in ("float", "int"):
+                    leaf = ["rd", tgt["name"], ["win", pick(rng, [1, 1, 2, 3]), var["unit"]], "ADD", via]
+                    summers.append((i, tgt))
             if leaf[0] != "rd":
                 tgt = world["variables"][pick(rng, same_unit)]
                 via = g._via(tgt)
@@ -450,6 +463,21 @@ def gen_world(
                 if via != "skip":
                     expr = ["b", "+", expr, ["rd", o["name"], "this", None, via]]
             var["formulas"][s] = expr
+        # a third rule that reads the quasi-circular variable itself (the spiral happens
+        # while it is on the stack) and then the summing reader (which is not)
+        for o, tgt in summers:
+            later = [i for i in readers if i > o and world["variables"][i]["unit"] == world["variables"][o]["unit"]]
+            if not later or not chance(rng, 0.7):
+                continue
+            i = pick(rng, later)
+            var = world["variables"][i]
+            g = ExprGen(rng, world, i, discipline)
+            via_t, via_o = g._via(tgt), g._via(world["variables"][o])
+            if "skip" in (via_t, via_o):
+                continue
+            s = pick(rng, sorted(var["formulas"]))
+            var["formulas"][s] = ["b", "+", ["b", "+", ["rd", tgt["name"], "this", None, via_t],
+                                             ["rd", world["variables"][o]["name"], "this", None, via_o]], var["formulas"][s]]
     if discipline in ("cyclic", "spiral_cyclic"):
         formula_vars = [i for i, v in enumerate(world["variables"]) if v["formulas"]]
         if formula_vars:
@@ -469,6 +497,69 @@ def gen_world(
                 ["rd", world["variables"][j]["name"], "this", None, None],
             ]
     return world
+
+
+def gen_chain_world(rng: random.Random) -> dict:
+    """A clean quasi-circular world, the textbook shape of such rule systems: one or two
+    accumulating chains (`h(m) = h(m - 1) + ...`), rules that read a chain at a few offsets
+    or sum it over a window ending now, and rules that read both a chain and those readers -
+    so that, within one request, values computed while a spiral was being cut are reached
+    again later as cache hits, singly and in sums, by rules that were not on the stack
+    then.  Everything monthly and per person; few variables; dense in what C02's second
+    sentence is about."""
+    ents = gen_entities(rng, n_groups=0)
+    typ = pick(rng, ["float", "float", "int"])
+    vs = []
+
+    def var(name, formula=None):
+        v = {"name": name, "entity": "person", "type": typ, "unit": "month", "formulas": {}}
+        if formula is not None:
+            v["formulas"]["0001-01-01"] = formula
+        vs.append(v)
+        return v
+
+    def rd(name, pref="this", opt=None):
+        return ["rd", name, pref, opt, None]
+
+    var("x")  # an input series
+    step = pick(rng, [["c", 1.0], ["c", 2.0], rd("x"), ["b", "+", rd("x"), ["c", 1.0]]])
+    back = pick(rng, ["last_month", "last_month", ["off", -2, "month"]])
+    var("h", ["b", pick(rng, ["+", "+", "max"]), rd("h", back), step])
+    chains = ["h"]
+    if chance(rng, 0.4):
+        var("g", ["b", "+", rd("g", "last_month"), rd("h", pick(rng, ["this", "last_month"]))])
+        chains.append("g")
+    readers = []
+    for k in range(rng.randint(1, 3)):
+        c = pick(rng, chains)
+        kind = pick(rng, ["win", "win", "plain", "two"])
+        if kind == "win":
+            f = rd(c, ["win", pick(rng, [1, 2, 2, 3]), "month"], "ADD")
+        elif kind == "plain":
+            f = rd(c, pick(rng, ["this", "last_month", ["off", -2, "month"]]))
+        else:
+            f = ["b", "+", rd(c, "last_month"), rd(c, "this")]
+        if readers and chance(rng, 0.3):
+            f = ["b", "+", f, rd(pick(rng, readers))]
+        if chance(rng, 0.3):
+            f = ["b", "+", f, ["c", 100.0]]
+        var(f"r{k}", f)
+        readers.append(f"r{k}")
+    for k in range(rng.randint(1, 2)):
+        parts = [rd(pick(rng, chains), pick(rng, ["this", "this", "last_month"]))]
+        if chance(rng, 0.5):
+            parts.append(rd(pick(rng, chains), pick(rng, ["last_month", ["off", -2, "month"], "this"])))
+        parts.append(rd(pick(rng, readers)))
+        if chance(rng, 0.4):
+            parts.append(rd(pick(rng, readers)))
+        if chance(rng, 0.5):
+            rng.shuffle(parts)
+        f = parts[0]
+        for q in parts[1:]:
+            f = ["b", "+", f, q]
+        var(f"t{k}", f)
+    return {"entities": ents, "enums": [{"name": "E0", "members": ["m0_0", "m0_1"]}], "parameters": gen_parameters(rng),
+            "variables": vs, "discipline": "spiral"}
 
 
 # --------------------------------------------------------------------------- #
